@@ -69,6 +69,15 @@ written in the function is 0 or 1 (so that small horizons are representative), e
 none_is_zero: a return path that answers from the calendar's internals without calling its get_available_units(date)
 is refuted.
 
+Round 4 additions.  "The check comes before the store" (validation, units_nonnegative) is decided by
+`_evaluated_before`: plain dominance, or - for a validator spliced / written as `if x is None: pass / else: <check>`
+or called up front under the same mode split as the store - the branches that lead to the check are decided before the
+store and their outcome follows from the store's path condition (`x is not None` also follows when the store statement
+reads `x.attr`).  leaf_semantics: a validity bound compared with the date cut to its day (`_day_start(date)`,
+`date.replace(hour=0, ..)`, `date.date()`) instead of the date asked about is refuted.  none_is_zero: a truth test of the
+resource's calendar (`calendar or DEFAULT_CALENDAR`, `if not self.calendar`) is refuted when a calendar class defines
+__len__ / __bool__ (an empty DirectCalendar would be replaced / ignored); without such a method it is silent.
+
 The decision procedures evaluate the (loop free) blocks over finite abstract domains (see c17_util): unit values by
 sign class {None, <0, 0, >0}, dates by their position against a validity interval, direction in {-1, +1}.
 
@@ -1291,6 +1300,91 @@ def _range_cover(clause, var):
     return cov, bad
 
 
+def _atom_key(a, pol):
+    while isinstance(a, ast.UnaryOp) and isinstance(a.op, ast.Not):
+        a, pol = a.operand, not pol
+    na = U.none_atom(a, pol)
+    if na is not None:
+        return ('none', src(na[0]), na[1])
+    c = U.compare_atom(a, pol)
+    if c is not None and c[1] in ('>', '>='):
+        c = (c[2], U._FLIP[c[1]], c[0])
+    if c is not None:
+        return ('cmp', src(c[0]), c[1], src(c[2]))
+    return ('atom', src(a), pol)
+
+
+def _never_none(a, pol):
+    """`X is not None` for an X that is a fresh collection (list(..), a literal, a comprehension): always true"""
+    na = U.none_atom(a, pol)
+    if na is None or na[1]:
+        return False
+    x = na[0]
+    return isinstance(x, (ast.List, ast.Dict, ast.Set, ast.Tuple, ast.ListComp, ast.DictComp, ast.SetComp)) or (
+        isinstance(x, ast.Call) and isinstance(x.func, ast.Name) and x.func.id in ('list', 'sorted', 'set', 'tuple', 'dict', 'frozenset'))
+
+
+def _derefs(stmt, name):
+    """the statement cannot complete when `name` is None: it reads an attribute / item of it unconditionally"""
+    def walk(n):
+        if isinstance(n, ast.IfExp):
+            return walk(n.test)
+        if isinstance(n, ast.BoolOp):
+            return walk(n.values[0])
+        if isinstance(n, ast.Lambda):
+            return False
+        if isinstance(n, (ast.ListComp, ast.SetComp, ast.DictComp, ast.GeneratorExp)):
+            return walk(n.generators[0].iter)
+        if isinstance(n, (ast.Attribute, ast.Subscript)) and _name(n.value, name):
+            return True
+        return any(walk(c) for c in ast.iter_child_nodes(n))
+    if isinstance(stmt, (ast.If, ast.While)):
+        return walk(stmt.test)
+    if isinstance(stmt, ast.For):
+        return walk(stmt.iter)
+    return isinstance(stmt, ast.AST) and walk(stmt)
+
+
+def _evaluated_before(ctx, f, an, sn, _depth=0):
+    """the guard evaluated at cfg node `an` is evaluated on every path that reaches `sn`: `an` dominates `sn`, or the
+    branches that lead to `an` but not to `sn` (a validator spliced as `if days is None: pass / else: <check>`) are
+    decided before `sn` and their outcome is implied by the path condition of `sn`"""
+    cfg = cfg_of(f)
+    if cfg.dominates(an, sn):
+        return True
+    ex = Expander(ctx.prog, f, ctx.typer)
+    fl = flow_of(f)
+    cs = cfg.conditions(sn)
+    sids = {(id(t), p) for t, p in cs}
+    have = set()
+    for t, pol in cs:
+        for cl in U.cnf(ex.expand(t, cfg.node_containing(t)), pol):
+            if len(cl) == 1:
+                have.add(_atom_key(*cl[0]))
+    extras = [(t, pol) for t, pol in U.live_conditions(cfg, an, True) if (id(t), pol) not in sids]
+    if not extras or not cfg.can_reach(an, sn):
+        return False                    # nothing but plain dominance could have put `an` before `sn`
+    for t, pol in extras:
+        bn = cfg.node_containing(t)
+        if bn is None or _depth > 4 or not _evaluated_before(ctx, f, bn, sn, _depth + 1):
+            return False
+        for cl in U.cnf(ex.expand(t, bn), pol):
+            if len(cl) != 1:
+                return False
+            a, p = cl[0]
+            if _never_none(a, p):
+                continue
+            na = U.none_atom(a, p)
+            if na is not None and not na[1] and isinstance(na[0], ast.Name) and sn.ast is not None and _derefs(sn.ast, na[0].id) \
+                    and all(d.kind == 'param' for d in fl.defs_of(na[0].id)):
+                continue                # `x is not None`, and the statement at sn reads x.attr: it only completes when x is not None
+            if _atom_key(a, p) not in have:
+                return False
+            if any(d.kind != 'param' for n in names_in(a) for d in fl.defs_of(n)):
+                return False
+    return True
+
+
 _BUILTIN_CALLS = {'isinstance', 'type', 'len', 'list', 'sorted', 'set', 'tuple', 'dict', 'range', 'any', 'all', 'min', 'max', 'iter',
                   'enumerate', 'zip', 'int', 'float', 'str', 'repr', 'bool', 'abs', 'sum', 'RuntimeError', 'ValueError', 'TypeError',
                   'datetime', 'timedelta', 'frozenset', 'reversed', 'map', 'filter', 'print', 'id', 'hash', 'getattr', 'hasattr'}
@@ -1373,7 +1467,7 @@ def _weekday_guard(ctx, o, f, gs, subject, what, keys: bool):
             lo_hi = set()
             for g in hits:
                 an = g.dom
-                if an is not None and sn is not None and (cfg.dominates(an, sn) or (
+                if an is not None and sn is not None and (_evaluated_before(ctx, f, an, sn) or (
                         cfg.dominates(sn, an) and [(id(t), p) for t, p in U.live_conditions(cfg, an, True)] ==
                         [(id(t), p) for t, p in U.live_conditions(cfg, sn, True)])):
                     for cl in g.clauses:
@@ -1804,7 +1898,7 @@ def _nonneg(ctx):
                 if g.exc != 'RuntimeError':
                     return ('bad', f"negative `{src(X)[:50]}` is rejected with {g.exc}, expected RuntimeError", g.raise_node)
                 an = g.dom
-                if an is not None and sn is not None and cfg.dominates(an, sn):
+                if an is not None and sn is not None and _evaluated_before(ctx, f, an, sn):
                     return 'ok'
                 if ctor and an is not None and sn is not None and cfg.dominates(sn, an) and \
                         [(id(t), p) for t, p in U.live_conditions(cfg, an, True)] == [(id(t), p) for t, p in U.live_conditions(cfg, sn, True)]:
@@ -1836,7 +1930,7 @@ def _nonneg(ctx):
                     if g.exc != 'RuntimeError':
                         return ('bad', f"negative values of `{src(D)}` are rejected with {g.exc}, expected RuntimeError", g.raise_node)
                     an = g.dom
-                    if an is not None and sn is not None and cfg.dominates(an, sn):
+                    if an is not None and sn is not None and _evaluated_before(ctx, f, an, sn):
                         return 'ok'
                     if ctor and an is not None and sn is not None and cfg.dominates(sn, an) and \
                             [(id(t), p) for t, p in U.live_conditions(cfg, an, True)] == [(id(t), p) for t, p in U.live_conditions(cfg, sn, True)]:
@@ -2069,6 +2163,27 @@ def _bounded(ctx, o, cls, out_value, in_check):
         case = f"date {pos_name[d]}" + (", no start" if s is None else '') + (", no end" if e is None else '')
         r = run_block(f.body, Ev([(S, s, 'exact'), (E, e, 'exact'), (_e(date), d, 'exact')]), ex)
         if r.kind == 'unknown':
+            # a validity bound compared with a *truncated / shifted* date instead of the date asked about is a wrong
+            # construct whatever the rest looks like: on the boundary day the time of day no longer decides
+            for n in walk_no_nested(f.node):
+                tests = [n.test] if isinstance(n, (ast.If, ast.IfExp, ast.While)) else ([n.value] if isinstance(n, ast.Return) and n.value is not None else [])
+                for t in tests:
+                    cn = cfg_of(f).node_containing(t)
+                    xt = ex.expand(t, cn) if cn is not None else t
+                    for c in [x for x in ast.walk(xt) if isinstance(x, ast.Compare) and len(x.ops) == 1
+                              and isinstance(x.ops[0], (ast.Lt, ast.LtE, ast.Gt, ast.GtE))]:
+                        for bound, other in ((c.left, c.comparators[0]), (c.comparators[0], c.left)):
+                            if not (same(bound, S) or same(bound, E)) or _name(other, date):
+                                continue
+                            d0 = facts.is_midnight_of(other)
+                            md = match("$d.date()", other)
+                            if (d0 is not None and _name(d0, date)) or (md and _name(md['d'], date)) or (
+                                    isinstance(other, ast.Call) and isinstance(other.func, ast.Attribute) and other.func.attr == 'replace'
+                                    and _name(other.func.value, date)):
+                                o.refute(f, n, c, f"{cls}.get_available_units compares its validity bound `{unmangle(src(bound))}` with "
+                                                  f"`{src(other)[:60]}` (the date cut to its day) instead of the date asked about: at a time "
+                                                  f"of day on the boundary day the calendar answers as if the whole day were inside / outside")
+                                return
             o.undecided(f, r.stmt, r.stmt, f"{cls}.get_available_units ({case}): {r.why}")
             return
         if r.kind == 'wouldraise':
@@ -2362,6 +2477,39 @@ def _none_zero(ctx):
         prog.func('resource.Resource.get_available_units')          # anchor
         for f in _resource_defs(prog, 'get_available_units'):
             one(o, f)
+        truthiness(o)
+
+    def truthiness(o):
+        """the resource's calendar is the one it was given: a truth test of a calendar object (`calendar or DEFAULT`,
+        `if not self.calendar`) replaces / ignores a calendar whose class defines __len__ or __bool__ when it is empty"""
+        falsy = [(ci, m) for ci in prog.subclasses('IWorkCalendar') for m in ('__bool__', '__len__') if m in ci.methods]
+        if not falsy:
+            return
+        for ci in [prog.cls('IResource')] + prog.subclasses('IResource'):
+            for name in ('__init__', 'get_available_units'):
+                f = ci.methods.get(name)
+                if f is None or not f.params:
+                    continue
+                me = f.params[0]
+
+                def is_cal(x):
+                    return (isinstance(x, ast.Name) and x.id == 'calendar' and x.id in f.params) or \
+                        (isinstance(x, ast.Attribute) and x.attr == 'calendar' and _name(x.value, me))
+                for n in walk_no_nested(f.node):
+                    tested = []
+                    if isinstance(n, ast.BoolOp):
+                        tested += n.values[:-1]
+                    if isinstance(n, (ast.If, ast.IfExp, ast.While)):
+                        tested.append(n.test)
+                    for t in tested:
+                        while isinstance(t, ast.UnaryOp) and isinstance(t.op, ast.Not):
+                            t = t.operand
+                        if is_cal(t):
+                            cn, mn = falsy[0][0].name, falsy[0][1]
+                            o.refute(f, n, n, f"{ci.name}.{name} tests the truth value of its calendar (`{src(n)[:60]}`), and {cn} defines "
+                                              f"{mn}: a {cn} that is empty is falsy, so the resource replaces / ignores the calendar it was "
+                                              f"given instead of reporting 0 where that calendar has no information (use `is None`)")
+                            return
 
     def one(o, f):
         date = f.params[1]
